@@ -182,10 +182,15 @@ class Run:
         if self.root_exists():
             ok = fsops.drain(self.uni, self.rec, timeout=8.0) and fsops.drain(self.uni, self.rec, timeout=8.0)
         evs = []
+        after_sentinel = False
         for e in self.rec.events[start:]:
             s, d = self.uni.rel(e.src_path), self.uni.rel(e.dest_path)
             if "__sentinel" in s or "__sentinel" in d:
+                after_sentinel = True
                 continue
+            if after_sentinel and type(e).__name__ == "DirModifiedEvent" and s == "W":
+                continue          # the root's modified event that accompanies every event of the drain sentinel
+            after_sentinel = False
             evs.append((type(e).__name__, s, d, bool(e.is_synthetic)))
         return applied, (evs if ok else None)
 
